@@ -19,7 +19,8 @@ ap.add_argument('--rlines', help='write "index fingerprint verdict" lines here (
 ap.add_argument('--keep', type=int, default=1, help='examples kept per signature')
 a = ap.parse_args()
 
-ENGINE = '/verif/build/iosim'
+import os
+ENGINE = os.environ.get('IOSIM', '/verif/build/iosim')
 sigs = collections.Counter(); examples = {}; stats = collections.Counter()
 runs = 0; crashes = 0
 rl = open(a.rlines, 'w') if a.rlines else None
